@@ -105,6 +105,8 @@ class V(object):
             p = "%s.%s" % (path, name) if path else name
             if name not in props:
                 if has_toplevel_ext:
+                    # a property some (unknown) top-level extension defines: its type is unknown, what holds for all STIX content is not
+                    self.no_null_empty(val, p)
                     continue
                 self.bad("unknown-property", p, "%s has no property %r" % (clsname, name))
                 continue
